@@ -118,3 +118,11 @@ prop("C04", static=[
     ("owned", "liquer.cache.MemoryCache.store", "the-cache-keeps-its-own-copy", "item:storage"),
     ("owned", "liquer.cache.MemoryCache.get", "the-cache-hands-out-a-copy", "return"),
 ])
+
+# C05: what the cache holds for a key stays the value of that key only if the in-memory cache keeps and hands out its own copies
+# (the evaluator goes on writing into the states it gets: query, file name, media type), and only if two different queries never
+# share a canonical key (an action with one empty argument is not the action without arguments)
+prop("C05", static=[
+    ("owned", "liquer.cache.MemoryCache.store", "the-cache-keeps-its-own-copy", "item:storage"),
+    ("owned", "liquer.cache.MemoryCache.get", "the-cache-hands-out-a-copy", "return"),
+], fucs=["liquer.parser.ActionRequest.encode"])
